@@ -379,7 +379,7 @@ func fieldsRead(fn *ssa.Function, named *types.Named) map[string]bool {
 
 func ruleGrammarReads(c *Ctx, r *Rep, rule, method string) {
 	gts := grammarTypes(c)
-	r.Floor(rule+":grammar-types", len(gts), 6)
+	r.Floor(rule+":grammar-types", len(gts), 5)
 	nf := 0
 	for _, gt := range gts {
 		fn := c.Fn("(*filter." + gt.Name + ")." + method)
@@ -396,7 +396,7 @@ func ruleGrammarReads(c *Ctx, r *Rep, rule, method string) {
 			r.Check(rule, rule+":reads:"+gt.Name+"."+f.Name+"@"+method, fn.Pos(), rd[f.Name], "", "the parser captures "+gt.Name+"."+f.Name+" (`"+f.Tag+"`) but "+method+" never reads it: that piece of syntax is silently ignored")
 		}
 	}
-	r.Floor(rule+":captured-fields", nf, 16)
+	r.Floor(rule+":captured-fields", nf, 12)
 }
 
 func ruleC07_2_3(c *Ctx, r *Rep) { ruleGrammarReads(c, r, "C07.2", "Evaluate") }
@@ -508,7 +508,7 @@ func evalClosure(c *Ctx) []*ssa.Function {
 
 func ruleC07_5(c *Ctx, r *Rep) {
 	fs := evalClosure(c)
-	r.Floor("C07.5:functions", len(fs), 8)
+	r.Floor("C07.5:functions", len(fs), 6)
 	allowed := map[string]bool{"strings.HasPrefix": true, "errors.New": true, "fmt.Errorf": true}
 	for _, f := range fs {
 		bad := ""
@@ -829,7 +829,7 @@ func ruleC08_2(c *Ctx, r *Rep) {
 			}
 		}
 	}
-	r.Floor("C08.2", n, 5)
+	r.Floor("C08.2", n, 4)
 }
 
 func ruleC08_3(c *Ctx, r *Rep) {
